@@ -68,6 +68,34 @@ class BaseBroker(ABC):
         :return: The next invocation id to be processed, or None.
         """
 
+    def peek_invocations(self, limit: int) -> list["InvocationId"]:
+        """
+        Return up to ``limit`` invocation ids from the head of the queue, in delivery
+        order, without consuming them.
+
+        Monitoring has to look at the queue without changing it. This default works for
+        any broker: it drains the queue and routes every message back in its original
+        order before returning, so the queue ends exactly as it started (it is not atomic
+        with respect to concurrent consumers). Brokers that can read without consuming
+        should override it.
+
+        :param int limit: Maximum number of ids to return; values <= 0 return nothing.
+        :return: The first ``limit`` queued invocation ids, oldest first.
+        """
+        if limit <= 0:
+            return []
+        drained: list["InvocationId"] = []
+        try:
+            for _ in range(self.count_invocations()):
+                invocation_id = self.retrieve_invocation()
+                if invocation_id is None:
+                    break
+                drained.append(invocation_id)
+        finally:
+            for invocation_id in drained:
+                self.route_invocation(invocation_id)
+        return drained[:limit]
+
     @abstractmethod
     def count_invocations(self) -> int:
         """
